@@ -5,6 +5,7 @@ import (
 	"sort"
 	"strings"
 
+	"github.com/aukilabs/hagall-common/messages/dagazpb"
 	"github.com/aukilabs/hagall-common/messages/hagallpb"
 	"github.com/aukilabs/hagall-common/messages/odalpb"
 	"github.com/aukilabs/hagall-common/messages/vikjapb"
@@ -123,6 +124,8 @@ func (r *Runner) tags(oracle string) []string {
 		add("C16")
 	case "asset":
 		add("C16", "C05")
+	case "quad", "region":
+		add("C20", "C03")
 	}
 	if e.K == "tick" {
 		add("C12", "C13")
@@ -294,6 +297,11 @@ func (r *Runner) Do(ev Ev) {
 		wire = &odalpb.AssetInstanceAddRequest{Type: odalpb.MsgType_MSG_TYPE_ODAL_ASSET_INSTANCE_ADD_REQUEST, Timestamp: tsp, RequestId: x.rid, EntityId: eid, AssetId: AssetNames[ev.Y]}
 	case "ping":
 		wire = &hagallpb.Request{Type: hagallpb.MsgType_MSG_TYPE_PING_REQUEST, Timestamp: tsp, RequestId: x.rid}
+	case "quad":
+		cx, cz := quadPos(ev.X)
+		wire = &dagazpb.DagazQuadSample{Type: dagazpb.MsgType_MSG_TYPE_DAGAZ_QUAD_SAMPLE, Timestamp: tsp, Samples: []*dagazpb.Quad{{Center: &dagazpb.Point{X: cx, Y: 0, Z: cz}, Extents: &dagazpb.Point{X: 0.5, Y: 0, Z: 0.5}}}}
+	case "region":
+		wire = &dagazpb.DagazGetRegionRequest{Type: dagazpb.MsgType_MSG_TYPE_DAGAZ_GET_REGION_REQUEST, Timestamp: tsp, RequestId: x.rid, Min: &dagazpb.Point{X: -1000, Z: -1000}, Max: &dagazpb.Point{X: 1000, Z: 1000}}
 	default:
 		panic("unknown event kind " + ev.K)
 	}
@@ -331,7 +339,7 @@ func (r *Runner) Do(ev Ev) {
 		c.Pending[fmt.Sprintf("c:%d:%d", tid, eid)] = &pendingUpd{Key: "c", T: tid, E: eid, Data: fmt.Sprintf("d%d", val), TS: x.ts, IsCmp: true, Seq: r.step}
 	case ev.K == "join":
 		r.doJoin(c, wire.(*hagallpb.ParticipantJoinRequest).SessionId, x)
-	case (ev.K == "action" || ev.K == "asset") && c.Sess == nil:
+	case (ev.K == "action" || ev.K == "asset" || ev.K == "quad" || ev.K == "region") && c.Sess == nil:
 		// module request from a connection that is in no session: dropped
 	case sessionScoped[ev.K] && c.Sess == nil:
 		// never executed: an error answer, silence or a disconnect are all fine
@@ -428,7 +436,26 @@ func mismatchClass(exp []Exp, got []Msg) string {
 	return "unexpected[" + strings.Join(extra, ",") + "]missing[" + strings.Join(missing, ",") + "]"
 }
 
+// Body builds the body of an explicit custom message: length n, pattern b.
+func Body(n, b int) []byte {
+	body := make([]byte, n)
+	for i := range body {
+		switch b {
+		case 1:
+			body[i] = 0xff
+		case 2:
+			body[i] = byte(i)
+		case 3:
+			body[i] = []byte{0x08, 0x10, 0x12, 0x04, 0x1a, 0x02}[i%6] // looks like protobuf tags
+		}
+	}
+	return body
+}
+
 func (r *Runner) buildCustom(c *MConn, ev Ev, tsp *timestamppb.Timestamp, val int) proto.Message {
+	if ev.Ex {
+		return &hagallpb.CustomMessage{Type: hagallpb.MsgType_MSG_TYPE_CUSTOM_MESSAGE, Timestamp: tsp, ParticipantIds: ev.P, Body: Body(ev.N, ev.B)}
+	}
 	var body []byte
 	switch ev.Y {
 	case 0:
@@ -482,6 +509,14 @@ func (r *Runner) customRecipients(c *MConn, code int) []uint32 {
 		return []uint32{NeverID}
 	}
 	return nil
+}
+
+// quadPos places sample k on a lattice of disjoint, non-adjacent footprints
+// (no two samples ever merge), in all four quadrants.
+func quadPos(k int) (float32, float32) {
+	pos := [][2]float32{{1, 1}, {5, 1}, {-3, 1}, {1, -3}, {9, 5}}
+	p := pos[k%len(pos)]
+	return p[0], p[1]
 }
 
 func pidIn(s *MSession, pid uint32) (int, bool) {
@@ -568,8 +603,22 @@ func odalStateF(s *MSession) string {
 
 func (r *Runner) doJoin(c *MConn, target string, x *stepCtx) {
 	m := r.M
+	// A refused join of a connection that is in a session: the modules may
+	// hand their (unchanged) state again; no sentence forbids or requires it.
+	again := func() {
+		if c.Sess == nil {
+			return
+		}
+		if m.Mods.Vikja {
+			x.add(c.Idx, Exp{Msg: Msg{Type: 100, F: vikjaStateF(c.Sess)}, Optional: true})
+		}
+		if m.Mods.Odal {
+			x.add(c.Idx, Exp{Msg: Msg{Type: 200, F: odalStateF(c.Sess)}, Optional: true})
+		}
+	}
 	if c.Sess != nil && target == c.Sess.ID {
 		x.add(c.Idx, errExp(x.rid, AlreadyJoined))
+		again()
 		return
 	}
 	var tgt *MSession
@@ -578,6 +627,7 @@ func (r *Runner) doJoin(c *MConn, target string, x *stepCtx) {
 		if tgt == nil {
 			// refused: a refused request changes nothing
 			x.add(c.Idx, errExp(x.rid, NotFound))
+			again()
 			return
 		}
 	}
@@ -939,6 +989,24 @@ func (r *Runner) doSession(c *MConn, ev Ev, x *stepCtx, eid, tid uint32, val int
 			x.add(o, Exp{Msg: Msg{Type: 103, Origin: x.ts, F: "action=" + mactionStr(a)}})
 		}
 		c.View.Actions[fmt.Sprintf("%d/%s", eid, name)] = mactionStr(a)
+	case "quad":
+		if m.Mods.Dagaz {
+			cx, cz := quadPos(ev.X)
+			q := fmt.Sprintf("(%v,%v,%v|%v,%v,%v)", cx, float32(0), cz, float32(0.5), float32(0), float32(0.5))
+			dup := false
+			for _, o := range s.Quads {
+				if o == q {
+					dup = true // an identical sample merges into the stored plane
+				}
+			}
+			if !dup {
+				s.Quads = append(s.Quads, q)
+			}
+		}
+	case "region":
+		if m.Mods.Dagaz {
+			x.add(ci, Exp{Msg: Msg{Type: 304, RID: x.rid, F: "quads=" + sortedJoin(append([]string{}, s.Quads...))}})
+		}
 	case "asset":
 		if !m.Mods.Odal {
 			return
